@@ -71,6 +71,24 @@ pub fn run_tmrange(tk: &mut Toks) -> Option<String> {
                     if !ok { bad(format!("inc_month({y}-{m}-{d} {h}:{mi}:{s}.{ml}, {k})"), &mut viol); } }
                 else { bad(format!("inc_month({y}-{m}-{d}, {k}) failed"), &mut viol); }
             } }
+        // rejections: dates that do not exist and out-of-range time components must be error values
+        "r" => for i in start..start + cnt {
+            let y = 1 + (i * 37) % 9999; let leap = y % 4 == 0 && (y % 100 != 0 || y % 400 == 0);
+            let feb = if leap { 30 } else { 29 };
+            let bad_dates: [(i64, i64, i64); 9] = [(y, 13, 1), (y, 0, 1), (y, 2, feb), (y, 2, 30), (y, 4, 31), (y, 1, 0), (y, 1, 32), (y, 12, 32), (y, -1, 5)];
+            for (yy, mm, dd) in bad_dates {
+                if t::encode_date(&[n(yy as f64), n(mm as f64), n(dd as f64)]).is_ok() { bad(format!("encode_date({yy},{mm},{dd}) accepted"), &mut viol); }
+                if (0..=99).contains(&mm) && (0..=99).contains(&dd) && t::string_to_date(&[V::String(format!("{:04}-{:02}-{:02}", yy, mm, dd))]).is_ok() { bad(format!("string_to_date({yy}-{mm}-{dd}) accepted"), &mut viol); }
+            }
+            let (h, mi, s) = (i % 24, (i * 7) % 60, (i * 11) % 60);
+            let bad_times: [(i64, i64, i64); 7] = [(24, mi, s), (25 + i % 40, mi, s), (h, 60, s), (h, 61 + i % 30, s), (h, mi, 60), (h, mi, 61 + i % 30), (h, mi, 99)];
+            for (hh, mm, ss) in bad_times {
+                if t::encode_time(&[n(hh as f64), n(mm as f64), n(ss as f64)]).is_ok() { bad(format!("encode_time({hh},{mm},{ss}) accepted"), &mut viol); }
+                if t::string_to_time(&[V::String(format!("{:02}:{:02}:{:02}", hh, mm, ss))]).is_ok() { bad(format!("string_to_time({hh}:{mm}:{ss}) accepted"), &mut viol); }
+                if t::string_to_datetime(&[V::String(format!("2024-03-01 {:02}:{:02}:{:02}", hh, mm, ss))]).is_ok() { bad(format!("string_to_datetime(.. {hh}:{mm}:{ss}) accepted"), &mut viol); }
+            }
+            for (hh, mm, ss) in [(-1, mi, s), (h, -1, s), (h, mi, -1)] { if t::encode_time(&[n(hh as f64), n(mm as f64), n(ss as f64)]).is_ok() { bad(format!("encode_time({hh},{mm},{ss}) accepted"), &mut viol); } }
+        },
         _ => return None,
     }
     Some(format!("viol {} digest {:016x}{}", viol, digest, first.map_or(String::new(), |f| format!(" first {}", hex(&f)))))
